@@ -112,14 +112,8 @@ func checkC04(c *Ctx, r *Report) {
 			// Authenticated tested true
 			r.Rule("accept-authenticated", "a reply's completion code is used only if the decoded session wrapper's Authenticated flag was tested true (the decoder verifies the signature only when the flag is set)", 2)
 			okAuth := false
-			for k, b := range p.Blocks {
-				if k+1 >= len(p.Blocks) {
-					break
-				}
-				ifi, isIf := b.Instrs[len(b.Instrs)-1].(*ssa.If)
-				if !isIf {
-					continue
-				}
+			for _, tk := range p.Ifs() {
+				ifi := tk.If
 				v := ifi.Cond
 				neg := false
 				for {
@@ -130,8 +124,8 @@ func checkC04(c *Ctx, r *Report) {
 					}
 					break
 				}
-				if decodedLoad(v, "v2SessionLayer.Authenticated", idx, decodeAt) {
-					arm := p.Blocks[k+1] == b.Succs[0]
+				if decodedLoad(v, fSess+".Authenticated", idx, decodeAt) {
+					arm := tk.Arm
 					if neg {
 						arm = !arm
 					}
@@ -142,7 +136,7 @@ func checkC04(c *Ctx, r *Report) {
 			}
 			r.Check(okAuth, fname+"|Authenticated|path "+label, s.Send.Pos(), "flag tested true", "a reply with the authenticated flag cleared (no AuthCode, signature never verified) is accepted as the command's response")
 			r.Rule("accept-session-id", "a reply's completion code is used only if the decoded session ID was compared equal with the session's LocalID", 2)
-			okID, _ := passedEquality(p, idx, decodeAt, "v2SessionLayer.ID", func(l ssa.Value) bool {
+			okID, _ := passedEquality(p, idx, decodeAt, fSess+".ID", func(l ssa.Value) bool {
 				ld, ok := l.(*ssa.UnOp)
 				return ok && ld.Op == token.MUL && apOf(ld.X).SelString() == "LocalID"
 			})
